@@ -9,6 +9,7 @@ import (
 	"encoding/binary"
 	"encoding/hex"
 	"fmt"
+	"sort"
 	"strconv"
 	"strings"
 
@@ -596,6 +597,281 @@ func (h *c09) opRec(p []byte) {
 	} else {
 		h.c.Count("rec/none")
 	}
+	h.checkAcceptsOnlyBuilt(p, r)
+}
+
+// c09encoding names the first instruction of p that is not encoded the way the builders
+// (PushDataBytes / PushDataUint64 / AddOp) would encode it
+func c09encoding(p []byte) string {
+	insts, err := vm.ParseProgram(p)
+	if err != nil {
+		return "unparsable"
+	}
+	pc := 0
+	for _, i := range insts {
+		enc := p[pc : pc+int(i.Len)]
+		pc += int(i.Len)
+		switch {
+		case i.Op == vm.OP_JUMP || i.Op == vm.OP_JUMPIF:
+			return "jump"
+		case i.Op >= vm.OP_1 && i.Op <= vm.OP_16:
+			// a number 1..16: canonical for AddUint64, never produced by AddData
+			return "small-int"
+		case len(i.Data) > 0 && !bytes.Equal(enc, vm.PushDataBytes(i.Data)):
+			switch i.Op {
+			case vm.OP_PUSHDATA1:
+				return "pushdata1"
+			case vm.OP_PUSHDATA2:
+				return "pushdata2"
+			case vm.OP_PUSHDATA4:
+				return "pushdata4"
+			}
+			return "other"
+		case len(i.Data) == 0 && (i.Op == vm.OP_PUSHDATA1 || i.Op == vm.OP_PUSHDATA2 || i.Op == vm.OP_PUSHDATA4):
+			return "empty-" + strings.ToLower(i.Op.String())
+		}
+	}
+	return "canonical-pushes"
+}
+
+// checkAcceptsOnlyBuilt is the converse builders oracle: a recogniser accepts p  =>  the
+// matching builder, applied to the parameters the matching extractor reads out of p, returns
+// exactly p (so recognised programs and builder outputs are the same set of byte strings).
+func (h *c09) checkAcceptsOnlyBuilt(p []byte, r c09rec) {
+	report := func(which string, rebuilt []byte, err error) {
+		if err == nil && bytes.Equal(rebuilt, p) {
+			h.c.Count("accepts-only-built/" + which)
+			return
+		}
+		got := "error"
+		if err == nil {
+			got = hx(rebuilt)
+		}
+		h.fail("recogniser-accepts-non-builder-bytes:"+which+":"+c09encoding(p),
+			fmt.Sprintf("%s accepts %s, but the builder on the extracted parameters gives %s", which, hx(p), got))
+	}
+	defer func() {
+		if x := recover(); x != nil {
+			h.fail("recogniser-accepts-non-builder-bytes:panic", fmt.Sprintf("extractor panics on recognised program %s: %v", hx(p), x))
+		}
+	}()
+	if r.pkh {
+		hash, err := segwit.GetHashFromStandardProg(p)
+		if err == nil {
+			var b []byte
+			b, err = vmutil.P2WPKHProgram(hash)
+			report("p2wpkh", b, err)
+			// … and the conversion used by validation is the signature program of that hash
+			want, _ := vmutil.P2PKHSigProgram(hash)
+			if c, cerr := segwit.ConvertP2PKHSigProgram(p); cerr != nil || !bytes.Equal(c, want) {
+				h.fail("convert-differs-from-builder:p2wpkh:"+c09encoding(p), "ConvertP2PKHSigProgram("+hx(p)+") is not P2PKHSigProgram(hash)")
+			}
+		} else {
+			report("p2wpkh", nil, err)
+		}
+	}
+	if r.sh {
+		hash, err := segwit.GetHashFromStandardProg(p)
+		if err == nil {
+			var b []byte
+			b, err = vmutil.P2WSHProgram(hash)
+			report("p2wsh", b, err)
+			want, _ := vmutil.P2SHProgram(hash)
+			if c, cerr := segwit.ConvertP2SHProgram(p); cerr != nil || !bytes.Equal(c, want) {
+				h.fail("convert-differs-from-builder:p2wsh:"+c09encoding(p), "ConvertP2SHProgram("+hx(p)+") is not P2SHProgram(hash)")
+			}
+		} else {
+			report("p2wsh", nil, err)
+		}
+	}
+	if r.bcrp {
+		c, err := bcrp.ParseContract(p)
+		var b []byte
+		if err == nil {
+			b, err = vmutil.RegisterProgram(c)
+		}
+		report("bcrp", b, err)
+	}
+	if r.call {
+		ch, err := bcrp.ParseContractHash(p)
+		var b []byte
+		if err == nil {
+			b, err = vmutil.CallContractProgram(ch[:])
+		}
+		report("call", b, err)
+	}
+	if r.straight {
+		cb, _ := vmutil.DefaultCoinbaseProgram()
+		rt, _ := vmutil.RetireProgram(nil)
+		if bytes.Equal(p, cb) {
+			report("straight", cb, nil)
+		} else {
+			report("straight", rt, nil)
+		}
+	}
+}
+
+// ---- alternative encodings of the standard programs
+
+// a piece of a standard program: an opcode, a data push (AddData) or a number (AddUint64)
+type c09piece struct {
+	op   byte
+	data []byte
+	kind int // 0 opcode, 1 data push, 2 number
+	num  uint64
+}
+
+func c09op(o vm.Op) c09piece    { return c09piece{op: byte(o)} }
+func c09data(d []byte) c09piece { return c09piece{kind: 1, data: d} }
+func c09num(n uint64) c09piece  { return c09piece{kind: 2, num: n} }
+func (x c09piece) canonical() []byte {
+	switch x.kind {
+	case 1:
+		return vm.PushDataBytes(x.data)
+	case 2:
+		return vm.PushDataUint64(x.num)
+	}
+	return []byte{x.op}
+}
+
+// c09pushForms: every instruction encoding that pushes exactly the payload d
+func c09pushForms(d []byte) [][]byte {
+	n := len(d)
+	var out [][]byte
+	if n >= 1 && n <= 75 {
+		out = append(out, append([]byte{byte(n)}, d...))
+	}
+	if n < 256 {
+		out = append(out, append([]byte{byte(vm.OP_PUSHDATA1), byte(n)}, d...))
+	}
+	if n < 65536 {
+		out = append(out, append([]byte{byte(vm.OP_PUSHDATA2), byte(n), byte(n >> 8)}, d...))
+	}
+	out = append(out, append([]byte{byte(vm.OP_PUSHDATA4), byte(n), byte(n >> 8), byte(n >> 16), byte(n >> 24)}, d...))
+	if n == 0 {
+		out = append(out, []byte{byte(vm.OP_0)})
+	}
+	if n == 1 && d[0] >= 1 && d[0] <= 16 {
+		out = append(out, []byte{byte(vm.OP_1) + d[0] - 1})
+	}
+	return out
+}
+
+// alternatives of one piece: all encodings of the same payload; for numbers also the same
+// value with redundant high-order zero bytes ("leading zeros" of the little-endian number)
+func (x c09piece) alternatives() [][]byte {
+	switch x.kind {
+	case 1:
+		return c09pushForms(x.data)
+	case 2:
+		d := vm.Uint64Bytes(x.num)
+		out := c09pushForms(d)
+		out = append(out, c09pushForms(append(append([]byte{}, d...), 0))...)
+		out = append(out, c09pushForms(append(append([]byte{}, d...), 0, 0))...)
+		return out
+	}
+	return [][]byte{{x.op}}
+}
+
+func (h *c09) stdPrograms() map[string][]c09piece {
+	h20, h32 := h.rbytes(20), h.rbytes(32)
+	k1, k2, k3 := h.rbytes(32), h.rbytes(32), h.rbytes(32)
+	sig := func(x []byte) []c09piece {
+		return []c09piece{c09op(vm.OP_DUP), c09op(vm.OP_HASH160), c09data(x), c09op(vm.OP_EQUALVERIFY), c09op(vm.OP_TXSIGHASH), c09op(vm.OP_SWAP), c09op(vm.OP_CHECKSIG)}
+	}
+	sh := func(x []byte) []c09piece {
+		return []c09piece{c09op(vm.OP_DUP), c09op(vm.OP_SHA3), c09data(x), c09op(vm.OP_EQUALVERIFY), c09num(0), c09op(vm.OP_SWAP), c09num(0), c09op(vm.OP_CHECKPREDICATE)}
+	}
+	return map[string][]c09piece{
+		"p2wpkh":     {c09num(0), c09data(h20)},
+		"p2wsh":      {c09num(0), c09data(h32)},
+		"p2pkhsig":   sig(h20),
+		"p2sh":       sh(h32),
+		"multisig":   {c09op(vm.OP_TXSIGHASH), c09data(k1), c09data(k2), c09data(k3), c09num(2), c09num(3), c09op(vm.OP_CHECKMULTISIG)},
+		"coinbase":   {c09num(1)},
+		"retire":     {c09op(vm.OP_FAIL), c09data([]byte("comment"))},
+		"retire0":    {c09op(vm.OP_FAIL)},
+		"register":   {c09op(vm.OP_FAIL), c09data([]byte(bcrp.BCRP)), c09data([]byte{byte(bcrp.Version)}), c09data(h.rbytes(1 + h.c.Rng.Intn(40)))},
+		"register1":  {c09op(vm.OP_FAIL), c09data([]byte(bcrp.BCRP)), c09data([]byte{byte(bcrp.Version)}), c09data([]byte{byte(1 + h.c.Rng.Intn(16))})},
+		"register76": {c09op(vm.OP_FAIL), c09data([]byte(bcrp.BCRP)), c09data([]byte{byte(bcrp.Version)}), c09data(h.rbytes(76 + h.c.Rng.Intn(200)))},
+		"call":       {c09data([]byte(bcrp.BCRP)), c09data(h32)},
+	}
+}
+
+func c09assemblePieces(ps []c09piece, alt map[int][]byte) []byte {
+	var out []byte
+	for k, x := range ps {
+		if a, ok := alt[k]; ok {
+			out = append(out, a...)
+		} else {
+			out = append(out, x.canonical()...)
+		}
+	}
+	return out
+}
+
+// every recogniser / extractor / converter on one candidate
+func (h *c09) feedAll(p []byte) {
+	h.opRec(p)
+	h.opConv("pkh", p)
+	h.opConv("sh", p)
+	h.c.Count("altenc/candidates")
+}
+
+// altEncodings: for every standard program, every alternative encoding of every single piece,
+// some double substitutions, and near-misses (one instruction more / less, wrong version
+// opcode, hash length +-1, a JUMP carrying the payload)
+func (h *c09) altEncodings() {
+	r := h.c.Rng
+	names := []string{}
+	progs := h.stdPrograms()
+	for n := range progs {
+		names = append(names, n)
+	}
+	sort.Strings(names)
+	for _, name := range names {
+		ps := progs[name]
+		h.feedAll(c09assemblePieces(ps, nil))
+		for k, x := range ps {
+			for _, a := range x.alternatives() {
+				h.feedAll(c09assemblePieces(ps, map[int][]byte{k: a}))
+			}
+		}
+		for t := 0; t < 6 && len(ps) >= 2; t++ { // two pieces at once
+			i, j := r.Intn(len(ps)), r.Intn(len(ps))
+			ai, aj := ps[i].alternatives(), ps[j].alternatives()
+			h.feedAll(c09assemblePieces(ps, map[int][]byte{i: ai[r.Intn(len(ai))], j: aj[r.Intn(len(aj))]}))
+		}
+		// near-misses
+		canon := c09assemblePieces(ps, nil)
+		for _, extra := range [][]byte{{byte(vm.OP_NOP)}, {byte(vm.OP_0)}, {0x01, 0xaa}, {byte(vm.OP_1)}} {
+			h.feedAll(append(append([]byte{}, canon...), extra...))
+			h.feedAll(append(append([]byte{}, extra...), canon...))
+		}
+		if len(ps) > 1 {
+			h.feedAll(c09assemblePieces(ps[:len(ps)-1], nil))
+			h.feedAll(c09assemblePieces(ps[1:], nil))
+		}
+		for k, x := range ps {
+			switch x.kind {
+			case 1: // payload length -1 / +1, payload carried by a JUMP, by JUMPIF
+				if len(x.data) > 0 {
+					h.feedAll(c09assemblePieces(ps, map[int][]byte{k: vm.PushDataBytes(x.data[:len(x.data)-1])}))
+				}
+				h.feedAll(c09assemblePieces(ps, map[int][]byte{k: vm.PushDataBytes(append(append([]byte{}, x.data...), byte(r.Intn(256))))}))
+				for _, f := range c09pushForms(append(append([]byte{}, x.data...), 0)) {
+					h.feedAll(c09assemblePieces(ps, map[int][]byte{k: f}))
+				}
+				four := append(append([]byte{}, x.data...), 0, 0, 0, 0)[:4]
+				h.feedAll(c09assemblePieces(ps, map[int][]byte{k: append([]byte{byte(vm.OP_JUMP)}, four...)}))
+				h.feedAll(c09assemblePieces(ps, map[int][]byte{k: append([]byte{byte(vm.OP_JUMPIF)}, four...)}))
+			case 2: // wrong version / number opcode
+				for _, o := range []byte{byte(vm.OP_1), byte(vm.OP_2), byte(vm.OP_NOP), byte(vm.OP_FAIL), 0x50} {
+					h.feedAll(c09assemblePieces(ps, map[int][]byte{k: {o}}))
+				}
+			}
+		}
+	}
 }
 
 func c09build(kind string, arg []byte) ([]byte, error) {
@@ -1059,7 +1335,7 @@ func (h *c09) line(l string) {
 }
 
 func runC09(c *Ctx) {
-	c.Rule = "ParseProgram/Disassemble on every byte string of length <= 2 (and, digested, on all 3-byte strings: 256 first bytes in the thorough tier, 8 in quick), on random strings <= 300 bytes and on grammar-generated programs (canonical and non-canonical pushes incl. truncated PUSHDATA1/2/4, jumps to boundaries / off boundaries / past the end, expansion opcodes); Assemble on every disassembly and on generated token streams (names, hex, quoted strings with escapes, decimal numbers around 2^64 and 2^256, labels, numeric jumps, every Unicode space bufio knows, tokens around the 64 KiB Scanner limit); PushDataBytes for every length 0..300 and 65535..65537, 70000; all builders and recognisers on argument lengths 0..77, 255..257, 1000, 65535.., random programs and mutated builder outputs. A case is distinct by its op line; non-trivial = reaches ParseOp/Assemble with a non-empty input."
+	c.Rule = "ParseProgram/Disassemble on every byte string of length <= 2 (and, digested, on all 3-byte strings: 256 first bytes in the thorough tier, 8 in quick), on random strings <= 300 bytes and on grammar-generated programs (canonical and non-canonical pushes incl. truncated PUSHDATA1/2/4, jumps to boundaries / off boundaries / past the end, expansion opcodes); Assemble on every disassembly and on generated token streams (names, hex, quoted strings with escapes, decimal numbers around 2^64 and 2^256, labels, numeric jumps, every Unicode space bufio knows, tokens around the 64 KiB Scanner limit); PushDataBytes for every length 0..300 and 65535..65537, 70000; all builders and recognisers on argument lengths 0..77, 255..257, 1000, 65535.., random programs and mutated builder outputs; for every standard program (P2WPKH, P2WSH, P2PKHSig, P2SH, multisig, coinbase, retire, BCRP register / call) every alternative encoding of every push (DATA_n / PUSHDATA1/2/4 / OP_1..16 / numbers with redundant zero bytes / JUMP carrying the payload) and near-misses (one instruction more or less, wrong version opcode, payload length +-1) through all recognisers, extractors and converters, with the converse oracle (accepted => builder on the extracted parameters returns exactly these bytes). A case is distinct by its op line; non-trivial = reaches ParseOp/Assemble with a non-empty input."
 	h := &c09{c: c, reports: map[string]int{}, family: map[string]int{}}
 	replaying := c.Replay != ""
 	lines := c.CorpusLines()
@@ -1125,6 +1401,14 @@ func runC09(c *Ctx) {
 		for _, n := range c09bigLens {
 			h.opBuildN(k, n, byte(1+r.Intn(255)))
 		}
+	}
+	// -- alternative encodings of every standard program through every recogniser / converter
+	rounds := 2
+	if c.Tier != "quick" {
+		rounds = 12
+	}
+	for i := 0; i < rounds; i++ {
+		h.altEncodings()
 	}
 	// -- standard programs (C02 groundwork): multisig builders and the segwit conversions
 	for n := 0; n <= 7; n++ {
